@@ -25,10 +25,13 @@ def family(rng, fam):
     G = lambda m, a: {"o": "GLOBAL", "m": m, "n": a}  # noqa: E731
     K = const_op
     if fam == "plain":
-        return pickle.dumps(rng.choice([[1, 2, 3], {"a": 1, "b": [2]}, ("x", 1.5), {1, 2}, "s" * 300]), rng.choice([2, 3, 4, 5]))
+        return pickle.dumps(rng.choice([[1, 2, 3], {"a": 1, "b": [2]}, ("x", 1.5), {1, 2}, "s" * 300,
+                                        # text whose encoded length differs from its length in characters
+                                        ["caf\u00e9", "\u4e2d\u6587"], {"\U0001f600": "\u00fc" * 200}, "\u20ac" * 300]), rng.choice([2, 3, 4, 5]))
     if fam == "calls":
         return rng.choice([
             assemble([G("verif_sink", "other"), O("MARK"), K("base"), O("TUPLE"), O("REDUCE"), O("STOP")]),
+            b"cverif_sink\nother\n(X\x05\x00\x00\x00b\xc3\xa4setR.",      # other('b\u00e4se')
             pickle.dumps(genvalues.verif_nat.Plain(a=[1, 2]), rng.choice([0, 2, 4])),
             assemble([G("collections", "OrderedDict"), O("EMPTY_TUPLE"), O("REDUCE"), G("collections", "OrderedDict"),
                       O("EMPTY_TUPLE"), O("REDUCE"), O("TUPLE2"), O("STOP")])])
